@@ -64,6 +64,11 @@ pub enum Req {
     HVal(usize, u8),
     /// a holder commitment validation that the policy refuses (absurd fee): refusals are routine
     Refused(usize),
+    /// sign the sweep of a delayed to-us output (`with_channel(|chan| chan.sign_delayed_sweep(..))`, exactly what the
+    /// arms SignDelayedPaymentToUs / SignAnyDelayedPaymentToUs do): the validator checks the destination against
+    /// the wallet (variant 0: a wallet address) or the allowlist (variant 1: a foreign script, refused) - node_state
+    /// through the validator's `wallet` argument while the slot is held
+    Sweep(usize, u8),
     /// with_channel_base: read a per-commitment point
     Point(usize),
     Forget(usize),
@@ -108,7 +113,7 @@ impl Req {
     /// request kind in the generated lock table
     pub fn kind(&self) -> &'static str {
         match self {
-            Req::Validate(_) | Req::SignHolder(_) | Req::SignCp(_) | Req::PayCp(_) | Req::PayCp1(_) | Req::PayHv(_) | Req::HVal(_, _) | Req::Refused(_) => "channel_request",
+            Req::Validate(_) | Req::SignHolder(_) | Req::SignCp(_) | Req::PayCp(_) | Req::PayCp1(_) | Req::PayHv(_) | Req::HVal(_, _) | Req::Refused(_) | Req::Sweep(_, _) => "channel_request",
             Req::Point(_) => "channel_base_request",
             Req::Forget(_) | Req::ForgetDb(_) => "forget_channel",
             Req::Balance => "channel_balance",
@@ -142,6 +147,7 @@ impl Req {
             Req::PayHv(c) => format!("req {} payhv {}", tid, c),
             Req::HVal(c, v) => format!("req {} hval{} {}", tid, v, c),
             Req::Refused(c) => format!("req {} refused {}", tid, c),
+            Req::Sweep(c, v) => format!("req {} sweep{} {}", tid, v, c),
             Req::Point(c) => format!("req {} point {}", tid, c),
             Req::Forget(c) => format!("req {} forget {}", tid, c),
             Req::Balance => format!("req {} balance", tid),
@@ -180,6 +186,8 @@ impl Req {
             "hval0" => Req::HVal(arg()? as usize, 0),
             "hval1" => Req::HVal(arg()? as usize, 1),
             "refused" => Req::Refused(arg()? as usize),
+            "sweep0" => Req::Sweep(arg()? as usize, 0),
+            "sweep1" => Req::Sweep(arg()? as usize, 1),
             "point" => Req::Point(arg()? as usize),
             "forget" => Req::Forget(arg()? as usize),
             "balance" => Req::Balance,
@@ -918,6 +926,38 @@ fn do_req(w: &World, r: &Req) -> String {
                 });
                 match r {
                     Ok(_) => "ok".into(),
+                    Err(e) => format!("err:{:?}:{}", e.code(), e.message().chars().take(90).collect::<String>()),
+                }
+            }
+        },
+        Req::Sweep(c, v) => match w.chans.get(*c) {
+            None => "nochan".into(),
+            Some(cc) => {
+                use bitcoin::bip32::{ChildNumber, DerivationPath};
+                use lightning_signer::wallet::Wallet;
+                let path = DerivationPath::from(vec![ChildNumber::from_normal_idx(7).unwrap()]);
+                let dest = if *v == 0 {
+                    node.get_native_address(&path).expect("wallet address").script_pubkey()
+                } else {
+                    bitcoin::ScriptBuf::from(vec![0x51u8])
+                };
+                let tx = bitcoin::Transaction {
+                    version: bitcoin::transaction::Version::TWO,
+                    lock_time: bitcoin::absolute::LockTime::ZERO,
+                    input: vec![bitcoin::TxIn {
+                        previous_output: cc.setup.funding_outpoint,
+                        script_sig: Default::default(),
+                        sequence: bitcoin::Sequence(cc.setup.counterparty_selected_contest_delay as u32),
+                        witness: bitcoin::Witness::default(),
+                    }],
+                    output: vec![bitcoin::TxOut { value: bitcoin::Amount::from_sat(90_000), script_pubkey: dest }],
+                };
+                let redeemscript = bitcoin::ScriptBuf::from(vec![0x51u8]);
+                let r = node.with_channel(&cc.channel_id, |chan| {
+                    chan.sign_delayed_sweep(&tx, 0, 0, &redeemscript, 100_000, &path)
+                });
+                match r {
+                    Ok(sig) => format!("ok {}", &hex::encode(sig.serialize_compact())[..8]),
                     Err(e) => format!("err:{:?}:{}", e.code(), e.message().chars().take(90).collect::<String>()),
                 }
             }
@@ -2160,6 +2200,19 @@ impl C20 {
                 co.tags.insert(format!("req:{}", q.kind()));
             }
         }
+        // result classes of the sweep-signing requests (signed / refused by the destination policy / other)
+        for (tid, k, rep) in &r.replies {
+            if let Some(Req::Sweep(_, v)) = sc.threads.get(*tid).and_then(|t| t.get(*k)) {
+                let class = if rep.starts_with("ok") {
+                    "signed"
+                } else if rep.contains("destination") || rep.contains("policy") {
+                    "refused-destination"
+                } else {
+                    "other"
+                };
+                co.tags.insert(format!("sweep{}:{}", v, class));
+            }
+        }
         co.nontrivial = blocked || !r.completed;
         co
     }
@@ -2230,6 +2283,7 @@ fn gen_scenario(rng: &mut Rng) -> Scenario {
                 34..=35 => Req::PayHv(c),
                 36..=37 => Req::HVal(c, rng.below(2) as u8),
                 40 => Req::PersistAll,
+                39 => Req::Sweep(c, rng.below(2) as u8),
                 _ => Req::Refused(c),
             };
             v.push(r);
@@ -2339,6 +2393,16 @@ impl Group for C20 {
             p(1, false, Req::Refused(0), Req::SignOnchain),
             p(1, false, Req::Refused(0), Req::Validate(0)),
             p(1, false, Req::Refused(0), Req::AddBlock(0)),
+            // sweep signing (validator -> wallet / allowlist under the slot) against the users of node_state,
+            // the tracker and the channel
+            p(1, false, Req::Sweep(0, 0), Req::Allow(0)),
+            p(1, false, Req::Sweep(0, 1), Req::Allow(1)),
+            p(1, false, Req::Sweep(0, 0), Req::Validate(0)),
+            p(1, false, Req::Sweep(0, 1), Req::Heartbeat),
+            p(1, false, Req::Sweep(0, 0), Req::AddBlock(0)),
+            p(1, false, Req::Sweep(0, 0), Req::SignOnchain),
+            p(1, false, Req::Sweep(0, 1), Req::Forget(0)),
+            p(2, false, Req::Sweep(0, 0), Req::Sweep(1, 1)),
             // same channel read-modify-write
             p(1, false, Req::Validate(0), Req::SignCp(0)),
             p(1, false, Req::Validate(0), Req::SignHolder(0)),
